@@ -51,6 +51,8 @@ def replay(w):
     ob = w['obligation']
     try:
         if ob == 'template_zero_exactly_on_boundary_pairs':
+            if w['notes'].get('after_joint_run'):
+                _joint(w)                      # the same joint run first, in this process
             sig, obs = _template([int(x) for x in w['notes']['lens']])
             return {'reproduced': sig is not None, 'signature': sig, 'observed': obs}
         if ob == 'no_window_mixes_two_series':
